@@ -656,8 +656,19 @@ impl G {
                         let n = if !plain && self.rng.chance(1, 8) { 0 } else { 1 + self.rng.below(5) };
                         let collide = !plain && self.rng.chance(1, 10);
                         // the fields of a variant are renamed only by that variant's own rename_all
-                        let (fs, rr) = self.fields(n, vra, Some(&tag), collide, plain);
+                        let (mut fs, rr) = self.fields(n, vra, Some(&tag), collide, plain);
                         r2.extend(rr);
+                        // one struct-like variant in ten has a field keyed like the variant's own effective name
+                        // (the tag VALUE; nothing special may happen to that member)
+                        if !plain && !fs.is_empty() && self.rng.chance(1, 10) && key != tag && !fs.iter().any(|f| f.def.key == key || f.def.ident == key) {
+                            let j = self.rng.below(fs.len());
+                            let collides_with_tag = fs[j].def.key == tag;
+                            if !fs[j].def.skip && !collides_with_tag {
+                                fs[j].attrs.retain(|a| !a.starts_with("rename"));
+                                fs[j].attrs.push(format!("rename = \"{}\"", key.replace('\\', "\\\\").replace('"', "\\\"")));
+                                fs[j].def.key = key.clone();
+                            }
+                        }
                         Some(fs)
                     } else {
                         if vra != RenameAll::None {
